@@ -31,6 +31,8 @@ pub trait G: Any {
     fn v_print(&self, v: usize) -> Result<String>;
     fn debug(&self) -> String;
     fn display(&self) -> String;
+    /// `{:#?}` and `{:#}`
+    fn debug_alt(&self) -> (String, String);
     fn to_xml(&self) -> Result<String>;
     fn to_dot(&self) -> String;
     fn deploy(&mut self, script: &str) -> Result<usize>;
@@ -115,6 +117,9 @@ impl<const N: usize> G for Sodg<N> {
     }
     fn display(&self) -> String {
         format!("{self}")
+    }
+    fn debug_alt(&self) -> (String, String) {
+        (format!("{self:#?}"), format!("{self:#}"))
     }
     fn to_xml(&self) -> Result<String> {
         Sodg::to_xml(self)
